@@ -91,11 +91,11 @@ Proof.
   destruct (alloc_batch h b c) as [h1 c1] eqn:A. cbn [fst snd] in IH.
   unfold alloc, get_value. cbn [fst snd]. rewrite chain_cons_new. cbn [find n_next fst].
   destruct (node_matches k (mk_node (Some k0) v0 c1)) eqn:M.
-  - apply node_matches_spec in M. cbn in M. destruct M as [M|[M _]]; [|discriminate]. inversion M; subst.
+  - apply node_matches_spec in M. cbn in M. inversion M; subst.
     rewrite bytes_eqb_refl. reflexivity.
   - destruct (bytes_eqb k0 k) eqn:E.
     + apply bytes_eqb_eq in E. subst.
-      assert (node_matches k (mk_node (Some k) v0 c1) = true) by (apply node_matches_spec; left; reflexivity).
+      assert (node_matches k (mk_node (Some k) v0 c1) = true) by (apply node_matches_spec; reflexivity).
       congruence.
     + exact IH.
 Qed.
@@ -107,22 +107,25 @@ Theorem set_values_get : forall h c b k, ctx_ok h c -> b <> [] ->
   match find (fun p => bytes_eqb (fst p) k) b with Some p => snd p | None => get_value h c k end.
 Proof. intros h c [|p b] k H B; [contradiction|]. unfold set_values. apply alloc_batch_get. exact H. Qed.
 
-(* SetValues with an EMPTY batch (finding F20): every non-empty key answers as the parent does, but the empty key
-   is answered by the default-constructed head node: no value, whatever the parent had *)
-Theorem set_values_empty_get : forall h c k,
-  get_value (fst (set_values h c [])) (snd (set_values h c [])) k = if is_nilb k then vnone else get_value h c k.
+(* SetValues with an EMPTY batch (finding F20, repaired in 4bc3189): a new context that answers every key - the
+   empty key included - exactly as its parent does *)
+Theorem set_values_empty_keeps_parent : forall h c k,
+  get_value (fst (set_values h c [])) (snd (set_values h c [])) k = get_value h c k /\
+  has_key (fst (set_values h c [])) (snd (set_values h c [])) k = has_key h c k.
 Proof.
-  intros h c k. unfold set_values, alloc, get_value. cbn [fst snd]. rewrite chain_cons_new. cbn [find n_next].
-  unfold node_matches. cbn [n_key]. destruct k; cbn; reflexivity.
+  intros h c k.
+  assert (G : get_value (fst (set_values h c [])) (snd (set_values h c [])) k = get_value h c k).
+  { unfold set_values, alloc, get_value. cbn [fst snd]. rewrite chain_cons_new. cbn [find n_next]. reflexivity. }
+  split; [exact G|]. unfold has_key. rewrite G. reflexivity.
 Qed.
 
-Theorem setvalues_empty_batch_refuted : exists h c,
-  ctx_ok h c /\ get_value h c [] <> vnone /\
-  get_value (fst (set_values h c [])) (snd (set_values h c [])) [] = vnone.
-Proof.
-  exists (fst (set_value [] root [] (KI, 5%Z))), (snd (set_value [] root [] (KI, 5%Z))).
-  split; [cbn; lia|]. split; [vm_compute; discriminate | vm_compute; reflexivity].
-Qed.
+(* the situation in which the unrepaired code lost the binding *)
+Example set_values_empty_nonvacuous :
+  let h := fst (set_value [] root [] (KI, 5%Z)) in
+  let c := snd (set_value [] root [] (KI, 5%Z)) in
+  get_value h c [] = (KI, 5%Z) /\ get_value (fst (set_values h c [])) (snd (set_values h c [])) [] = (KI, 5%Z) /\
+  snd (set_values h c []) <> c.
+Proof. vm_compute. repeat split. discriminate. Qed.
 
 (* ------------------------------------------------------------------ Attach / Detach on the real stack *)
 Theorem attach_makes_current : forall s c, stack_wf s -> top (push s c) = c.
